@@ -119,13 +119,19 @@ pub fn check(c: &Case, ctx: &mut Ctx) -> Result<(), Failure> {
     Ok(())
 }
 
-// exhaustive alphabet: 4 value letters + Reset
+// exhaustive alphabet: 5 value letters (one of them a bar with an enormous volume) + Reset
 fn hletter(j: usize) -> HOp {
     match j {
         0 => HOp::Next(letter(1.0)),
         1 => HOp::Next(letter(4.0)),
         2 => HOp::Next(letter_bar(2.5)),
         3 => HOp::Next(letter(f64::NAN)),
+        4 => {
+            // a flow so large that ordinary flows added to it are absorbed (x + f == x)
+            let mut l = letter_bar(3.0);
+            l.bar.v = 1e21;
+            HOp::Next(l)
+        }
         _ => HOp::Reset,
     }
 }
@@ -161,16 +167,16 @@ fn strategy(cap: usize, long: bool) -> BoxedStrategy<Case> {
 }
 
 pub fn run(g: &mut Global) {
-    g.rule = "exhaustive: all 22 indicators x periods 1..=4 x every history of length 0..=depth over {1, 4, bar 2.5, NaN, Reset} x 3 fixed continuations of 8 finite inputs; random: proptest histories of Next/Reset (finite, or with NaN/inf/MAX/subnormal fields, or guaranteed-full) followed by a final reset() and an independently drawn finite continuation of n+2..3n+5 inputs. Oracle: the reset instance, a fresh instance, a fresh instance reset twice and a doubly-reset instance agree on every continuation output within 1e-12 relative (NaN = NaN), and period()/multiplier()/Display are unchanged. Non-trivial = at least n+1 inputs since the previous reset before the final reset (window full and wrapped), continuation of at least n+2 inputs that differs from the tail of the history; distinct by hash of (kind, parameters, history, continuation).".into();
+    g.rule = "exhaustive: all 22 indicators x periods 1..=4 x every history of length 0..=depth over {1, 4, bar 2.5, NaN, bar with volume 1e21, Reset} x 3 fixed continuations of 8 finite inputs; random: proptest histories of Next/Reset (finite, or with NaN/inf/MAX/subnormal fields, or guaranteed-full) followed by a final reset() and an independently drawn finite continuation of n+2..3n+5 inputs. Oracle: the reset instance, a fresh instance, a fresh instance reset twice and a doubly-reset instance agree on every continuation output within 1e-12 relative (NaN = NaN), and period()/multiplier()/Display are unchanged. Non-trivial = at least n+1 inputs since the previous reset before the final reset (window full and wrapped), continuation of at least n+2 inputs that differs from the tail of the history; distinct by hash of (kind, parameters, history, continuation).".into();
     g.assumptions = vec![
         "continuation inputs are finite (DESIGN.md section 4/C04: NaN ordering in Minimum/Maximum after reset is outside the claim)".into(),
         "agreement within 1e-12 relative as the property states; NaN compared equal to NaN".into(),
     ];
-    let depth = g.tier.pick(6usize, 7usize);
-    // all histories of length 0..=depth: index space sum 5^d
+    let depth = g.tier.pick(5usize, 7usize);
+    // all histories of length 0..=depth: index space sum 6^d
     let mut offs = vec![0u64];
     for d in 0..=depth {
-        offs.push(offs[d] + ipow(5, d));
+        offs.push(offs[d] + ipow(6, d));
     }
     let per_cfg = offs[depth + 1];
     let conts = continuations();
@@ -186,7 +192,7 @@ pub fn run(g: &mut Global) {
             let n = (r % 4) as usize + 1;
             let kind: Kind = ALL_KINDS[(r / 4) as usize];
             let d = (0..=depth).find(|&d| h < offs[d + 1]).unwrap();
-            let digs = digits(h - offs[d], 5, d);
+            let digs = digits(h - offs[d], 6, d);
             Case { cfg: cfg_small(kind, n), history: digs.iter().map(|&j| hletter(j)).collect(), continuation: cont }
         },
         &check,
@@ -217,6 +223,31 @@ pub fn run(g: &mut Global) {
                 Inp { bar: crate::adapter::RawBar { o: v, h: v + 1.0 + u, l: v - 1.0, c: v + 0.5 - u, v: 1.0 + (u * 50.0).round() }, scalar: u > 0.4 }
             };
             let history: Vec<HOp> = (0..l.saturating_sub(d)).map(|_| HOp::Next(mk(&mut st))).collect();
+            let continuation: Vec<Inp> = (0..n + 12).map(|_| mk(&mut st)).collect();
+            Case { cfg: cfg_small(kind, n), history, continuation }
+        },
+        &check,
+    );
+    // very many resets in a row (a generation / epoch counter bumped by reset() would wrap): a short
+    // session, then 255..257 or 65 535..65 537 bare resets, then the continuation
+    g.exhaustive(
+        "reset_count_wrap",
+        22 * 2 * 6 * 3,
+        &move |i| {
+            let sess = [1usize, 3, 9][(i % 3) as usize];
+            let r = i / 3;
+            let l = LENS[(r % 6) as usize];
+            let r = r / 6;
+            let n = [3usize, 6][(r % 2) as usize];
+            let kind: Kind = ALL_KINDS[(r / 2) as usize];
+            let mut st = seed ^ (i + 77).wrapping_mul(0xD6E8FEB86659FD93);
+            let mut mk = |st: &mut u64| {
+                let u = unit(st);
+                let v = 20.0 + 10.0 * u;
+                Inp { bar: crate::adapter::RawBar { o: v, h: v + 1.0 + u, l: v - 1.0, c: v + 0.5 - u, v: 1.0 + (u * 50.0).round() }, scalar: u > 0.4 }
+            };
+            let mut history: Vec<HOp> = (0..sess).map(|_| HOp::Next(mk(&mut st))).collect();
+            history.extend((0..l - 1).map(|_| HOp::Reset));
             let continuation: Vec<Inp> = (0..n + 12).map(|_| mk(&mut st)).collect();
             Case { cfg: cfg_small(kind, n), history, continuation }
         },
